@@ -159,6 +159,12 @@ class Scheduler:
         if rec["kind"] == "open" and not rec["mutating"]:
             t.succeeded = True
 
+    def note_read(self, env, path):
+        """A path whose existence the running thread observed without a system call of its own in the model."""
+        t = self.cur
+        if t is not None and threading.current_thread() is t.thread:
+            t.fp.paths.add(("R", self._pkey(env, path)))
+
     def on_effect(self, env):
         t = self.cur
         if t is not None and threading.current_thread() is t.thread:
